@@ -309,6 +309,13 @@ def case_variants(what):
                                     maxabs(fld.grad()[0] - np.moveaxis(p.grad(Xq), -1, 0)) / fs, 1e-9,
                                     "%s: polynomial gradient not reproduced" % lab, unit="lagrange:grad", config=(lab, "grad"))
                         if geometry != "curved":
+                            # the template's default rule integrates products of shape-function gradients exactly on affine cells
+                            ref = fem.RegionLagrange(m, order=order, dim=dim, quadrature=fem.GaussLegendre(order=order + 2, dim=dim))
+                            gram = lambda r: np.einsum("aJqc,bJqc,qc->abc", r.dhdX, r.dhdX, r.dV)
+                            K, Kref = gram(reg), gram(ref)
+                            run.compare("region.lagrange", "template=%s clause=exact-gradient-products" % lab, maxabs(K - Kref) / maxabs(Kref), 1e-10,
+                                        "%s: default quadrature does not integrate grad h_a . grad h_b exactly on an affine cell" % lab,
+                                        unit="lagrange:exact-integration", config=(lab, "exact-integration"))
                             vol = 1.5 * 1.2 * (1.0 if dim == 3 else 1.0)
                             vol = float(np.prod(mesh.points.max(0) - mesh.points.min(0)))
                             if geometry == "affine":
@@ -385,7 +392,7 @@ def cases(tier, seed):
 
 def _required():
     req = ["structural:partition", "structural:zero-sum-gradient", "structural:unit-position-gradient",
-           "structural:zero-position-hessian", "float32", "uniform", "lagrange:interpolate", "lagrange:grad",
+           "structural:zero-position-hessian", "float32", "uniform", "lagrange:interpolate", "lagrange:grad", "lagrange:exact-integration",
            "dual:interpolate", "planestrain:grad", "axisymmetric:grad", "planestrain:hess", "family-equality"]
     for fam in gen.FAMILIES:
         req += [fam + ":dV>0", fam + ":volume", fam + ":rigid-motion", fam + ":interpolate", fam + ":grad", fam + ":warning"]
